@@ -1027,6 +1027,7 @@ def _check_direction_routing(ctx):
         if not holders and not loop_vars:
             continue
         du = None
+        T_ = None
         for call, kind, tg in prog.call_sites(f):
             if kind not in ("internal", "cha"):
                 continue
@@ -1052,8 +1053,16 @@ def _check_direction_routing(ctx):
                 ok = False
                 why = "no direction is passed (the callee's default is used)"
                 if actual is not None:
-                    roots = du.backward_roots(actual)
+                    # judged on the term: a local copy of the direction
+                    # (best_desc = desc; f(desc=best_desc)) is the direction
+                    if T_ is None:
+                        T_ = Terms(du)
+                    want = ("param", "desc") if holder not in loop_vars \
+                        else ("elem", T_.of(loop_vars[holder].iter))
                     if isinstance(actual, ast.Name) and actual.id == holder:
+                        ok = True
+                    elif not isinstance(actual, ast.Constant) and \
+                            T_.of(actual) == want:
                         ok = True
                     elif isinstance(actual, ast.Constant):
                         # explicit constant: the caller pins the direction
